@@ -231,6 +231,7 @@ func Prelude(li *LangInfo, native bool) string {
 	w("(declare-fun f_bytesOf (Str) Bytes)")
 	w("(declare-fun f_strOf (Bytes) Str)")
 	w("(assert (forall ((s Str)) (! (= (f_strOf (f_bytesOf s)) s) :pattern ((f_bytesOf s)))))")
+	w("(assert (forall ((s Str)) (! (= (f_blen (f_bytesOf s)) (f_strlen s)) :pattern ((f_bytesOf s)))))")
 	w("(assert (forall ((b Bytes)) (! (= (f_bytesOf (f_strOf b)) b) :pattern ((f_strOf b)))))")
 	w("(assert (forall ((a Str) (b Str)) (! (= (f_bytesOf (f_cat a b)) (f_bcat (f_bytesOf a) (f_bytesOf b))) :pattern ((f_bytesOf (f_cat a b))))))")
 	w("(declare-fun f_nfkd (Str) Str)")
@@ -297,7 +298,10 @@ func Prelude(li *LangInfo, native bool) string {
 	w("(assert (forall ((t Err)) (! (=> (f_is nilErr t) (= t nilErr)) :pattern ((f_is nilErr t)))))") // errors.Is(nil, t) == (t == nil)
 	w("(assert (forall ((e Err) (t Err)) (! (=> (and (f_plainErr e) (f_is e t)) (= e t)) :pattern ((f_is e t)))))")
 	w("(declare-fun f_errNew (Int Str) Err)")
-	w("(assert (forall ((r Int) (m Str)) (! (and (= (f_eref (f_errNew r m)) r) (= (f_msg (f_errNew r m)) m) (f_plainErr (f_errNew r m))) :pattern ((f_errNew r m)))))")
+	// only for allocation stamps r > 0: stated for every r it would contradict eref >= 0 (and
+	// eref == 0 ==> nil) at the terms errNew(-1, m), errNew(0, m), which exist in the logic even
+	// though no execution builds them
+	w("(assert (forall ((r Int) (m Str)) (! (=> (> r 0) (and (= (f_eref (f_errNew r m)) r) (= (f_msg (f_errNew r m)) m) (f_plainErr (f_errNew r m)))) :pattern ((f_errNew r m)))))")
 	// --- any
 	w("(declare-fun f_anyStr (Str) Any)")
 	w("(declare-fun f_anyInt (Int) Any)")
